@@ -17,7 +17,8 @@ LEVEL = 'exploration'
 RULE = ('simulated BAMs with unique read ids: 1..12 contigs with lengths around the 100 kb small-contig threshold in random header order, '
         'empty contigs, 0..20 unmapped pairs, half-mapped pairs, orphan mates, invalid fragments; methods nla/chic/qflag x single process / '
         '--multiprocess with 1..4 workers x seeded per-job delays x --no_rejects. Non-trivial = >=2 contigs with reads and >=1 unmapped pair; '
-        'distinct = distinct (library seed, configuration).')
+        'distinct = distinct (library seed, configuration).'
+        ' Plus relative / ./ paths, dense libraries, flow cells and lanes varying per read, the molecule-buffer ejection interval shrunk to 0..50 fragments.')
 ASSUMPTIONS = ['secondary/supplementary alignments are outside the claim (not generated)',
                'mate number is only compared for pairs whose mates are both mapped to the same contig (the third-party mate iterator de-pairs the others)',
                'worker schedules are sampled: observed completion orders are counted, not enumerated']
